@@ -21,19 +21,21 @@ import (
 func init() { Registry["C06"] = runC06 }
 
 type c06Case struct {
-	Class    string
-	Source   string // scripted | gochannel
-	Label    string // hook point at which message m1 is parked when Close arrives ("" none, "handler" = inside the handler function)
-	Second   bool   // additionally hold m1 at router.handle.start until Close returned (or 60 ms)
-	Closers  int
-	Handlers int
-	Msgs     int
-	Slow     time.Duration // the handler of m1 blocks that long after Close was called (0: released 30 ms after Close)
-	Timeout  time.Duration // CloseTimeout
-	Repeat   bool          // call Close once more afterwards
-	Panics   bool          // the handler of m1 panics when it is released (the router recovers it and Nacks)
-	Drain    bool          // scripted subscriber whose Close() drains: it returns (and closes the channel) only after the delivered messages were settled
-	Conf     bool          // conformance run: internal hook events are recorded as well (RouterLifecycleImplTrace)
+	Class      string
+	Source     string // scripted | gochannel
+	Label      string // hook point at which message m1 is parked when Close arrives ("" none, "handler" = inside the handler function)
+	Second     bool   // additionally hold m1 at router.handle.start until Close returned (or 60 ms)
+	Closers    int
+	Handlers   int
+	Msgs       int
+	Slow       time.Duration // the handler of m1 blocks that long after Close was called (0: released 30 ms after Close)
+	Timeout    time.Duration // CloseTimeout
+	Repeat     bool          // call Close once more afterwards
+	Panics     bool          // the handler of m1 panics when it is released (the router recovers it and Nacks)
+	Drain      bool          // scripted subscriber whose Close() drains: it returns (and closes the channel) only after the delivered messages were settled
+	StopFirst  bool          // Handler.Stop() of handler 1 is called (and Stopped() awaited) while m1 is inside its handler function, then Close arrives
+	EarlyClose bool          // Close is called while Run is still subscribing the handlers (slow Subscribe calls), no messages
+	Conf       bool          // conformance run: internal hook events are recorded as well (RouterLifecycleImplTrace)
 }
 
 var c06ConfHooks = map[string]string{
@@ -97,6 +99,15 @@ func runC06(c *Ctx) error {
 	cases = append(cases, c06Case{Class: "timeout-draining/scripted", Source: "scripted", Label: "handler", Closers: 1, Handlers: 1, Msgs: 1, Slow: 3 * time.Second, Timeout: 100 * time.Millisecond, Drain: true})
 	cases = append(cases, c06Case{Class: "timeout-draining/scripted", Source: "scripted", Label: "handler", Closers: 2, Handlers: 2, Msgs: 1, Slow: 3 * time.Second, Timeout: 150 * time.Millisecond, Drain: true, Repeat: true})
 	cases = append(cases, c06Case{Class: "draining/scripted", Source: "scripted", Label: "handler", Closers: 2, Handlers: 1, Msgs: 2, Timeout: 3 * time.Second, Drain: true})
+	// the handler was stopped by the user while its invocation is still running: Close waits for that invocation all the same
+	cases = append(cases, c06Case{Class: "stopped-handler-still-busy/scripted", Source: "scripted", Label: "handler", Closers: 1, Handlers: 2, Msgs: 1, Timeout: 3 * time.Second, StopFirst: true})
+	cases = append(cases, c06Case{Class: "stopped-handler-still-busy/gochannel", Source: "gochannel", Label: "handler", Closers: 2, Handlers: 3, Msgs: 1, Timeout: 3 * time.Second, StopFirst: true})
+	// Close arrives while Run is still starting the handlers
+	for _, nh := range []int{2, 3} {
+		for _, nc := range []int{1, 2} {
+			cases = append(cases, c06Case{Class: "close-during-startup/scripted", Source: "scripted", Label: "", Closers: nc, Handlers: nh, Msgs: 0, Timeout: 3 * time.Second, EarlyClose: true})
+		}
+	}
 	// random park-and-run programs
 	n := c.Pick(30, 3000)
 	for i := 0; i < n; i++ {
@@ -115,7 +126,7 @@ func runC06(c *Ctx) error {
 	runs := make([]*tr.Run, len(cases))
 	confRuns := make([]*tr.Run, len(cases))
 	for i, cs := range cases {
-		runs[i] = T.NewRun(cs.Class, map[string]any{"nh": cs.Handlers, "expectsubclose": true, "timeout": int64(cs.Timeout / time.Microsecond)})
+		runs[i] = T.NewRun(cs.Class, map[string]any{"nh": cs.Handlers, "expectsubclose": !cs.StopFirst, "timeout": int64(cs.Timeout / time.Microsecond)})
 		runs[i].Key = fmt.Sprintf("%+v/%d", cs, i)
 		if cs.Conf {
 			confRuns[i] = TC.NewRun("conformance", nil)
@@ -191,6 +202,7 @@ func c06RunC(r *tr.Run, rc *tr.Run, cs c06Case) (gateReached bool) {
 		gc = gochannel.NewGoChannel(gochannel.Config{}, nil)
 	}
 	subs := []*scripted.Sub{}
+	handles := map[int]*message.Handler{}
 	mname := func(h, k int) string {
 		if cs.Conf {
 			return fmt.Sprintf("m%d", k)
@@ -206,6 +218,9 @@ func c06RunC(r *tr.Run, rc *tr.Run, cs c06Case) (gateReached bool) {
 		var sub message.Subscriber
 		if cs.Source == "scripted" {
 			s := scripted.NewSub("sub")
+			if cs.EarlyClose {
+				s.OnSubscribe = func(string) { time.Sleep(25 * time.Millisecond) }
+			}
 			if cs.Drain {
 				s.Drain = true
 				s.OnCloseStart = func() { r.Emit("subclose") }
@@ -217,7 +232,7 @@ func c06RunC(r *tr.Run, rc *tr.Run, cs c06Case) (gateReached bool) {
 		} else {
 			sub = closeSpy{gc, func() { r.Emit("subclose") }}
 		}
-		router.AddHandler(hname, fmt.Sprintf("t%d", h), sub, "out", pub, func(msg *message.Message) ([]*message.Message, error) {
+		handles[h] = router.AddHandler(hname, fmt.Sprintf("t%d", h), sub, "out", pub, func(msg *message.Message) ([]*message.Message, error) {
 			m := msg.UUID[len(prefix):]
 			mu.Lock()
 			objs[m] = msg
@@ -244,11 +259,15 @@ func c06RunC(r *tr.Run, rc *tr.Run, cs c06Case) (gateReached bool) {
 		r.Emit("runret", "ok", err == nil, "t", now(), "states", states())
 		emitC("runret")
 	}()
-	select {
-	case <-router.Running():
-	case <-time.After(HangBound):
-		r.Emit("hung", "what", "router start")
-		return
+	if cs.EarlyClose {
+		time.Sleep(8 * time.Millisecond) // Run is inside the (slow) Subscribe call of its first handler
+	} else {
+		select {
+		case <-router.Running():
+		case <-time.After(HangBound):
+			r.Emit("hung", "what", "router start")
+			return
+		}
 	}
 	var gate, gate2 *sched.Gate
 	if cs.Label != "" && cs.Label != "handler" {
@@ -307,6 +326,15 @@ func c06RunC(r *tr.Run, rc *tr.Run, cs c06Case) (gateReached bool) {
 					gateReached = true
 				}
 			}
+		}
+	}
+	if cs.StopFirst && gateReached {
+		handles[1].Stop()
+		select {
+		case <-handles[1].Stopped():
+		case <-time.After(HangBound):
+			r.Emit("hung", "what", "Stopped() of the stopped handler")
+			return
 		}
 	}
 	// Close arrives
